@@ -60,7 +60,7 @@ fn eval(c: &SCase) -> CaseOutcome {
     let flat = flatten(&prog);
     let image = data_image(&prog.data);
     let lines: Vec<usize> = rendered.flat_offsets.iter().map(|o| rendered.line_of(*o)).collect();
-    let cfg = RunCfg { interpreted: c.interpreted, script: &c.script, lines: &lines, max_steps: 20_000, input_lines: None };
+    let cfg = RunCfg { interpreted: c.interpreted, script: &c.script, lines: &lines, max_steps: 20_000, input_lines: None, buf_fill: None };
     let rr = ref_run(&flat, &image, &cfg, &Quirks::none());
     let exp = normalise(&rr.events);
     let stdin = crate::c17::script_bytes(&c.script);
